@@ -273,6 +273,9 @@ def run(ctx):
     if cnt == 0:
         ctx.error("R27.2: no push_sseq call found in optimize_kl.py")
 
+    r27_4(ctx, m, okl)
+    r27_5(ctx, m, mod, okl)
+    r27_6(ctx, m, okl)
     ctx.rule("R27.3", "enumerated options are validated before first use: save_strategy membership test raises before "
                       "the value is stored/used; reserved-key check precedes directory creation", floor=2)
     cfg = cfg_of(okl)
@@ -308,3 +311,130 @@ def run(ctx):
     else:
         dom = cfg.dominators()
         ctx.check("R27.3", key, all(rnodes[0].id in dom[k.id] for k in mk if k.id in dom), None, okl, rnodes[0].ast)
+
+
+def r27_4(ctx, m, okl):
+    """per-iteration options are evaluated at the iteration they are used for"""
+    ctx.rule("R27.4", "per-iteration options (made callable by _make_callable) are evaluated with the loop's own index inside every "
+                      "loop over iterations: no value obtained from option(<fixed index>) outside the loop is used for all iterations", floor=10)
+    cfg = cfg_of(okl)
+    rd = cfg.reaching_defs(okl.params())
+    P = set()
+    for st in walk_no_nested(okl.node):
+        if isinstance(st, ast.Assign) and isinstance(st.value, ast.Call) and call_name(st.value) == "_make_callable" \
+                and isinstance(st.targets[0], ast.Name):
+            P.add(st.targets[0].id)
+    ctx.extra["per_iteration_options"] = sorted(P)
+    loops = [n for n in cfg.nodes if n.kind == "for" and n.first and isinstance(n.ast.target, ast.Name)
+             and isinstance(n.ast.iter, ast.Call) and call_name(n.ast.iter) == "range" and "total_iterations" in src(n.ast.iter)]
+    n_checked = 0
+    for ln in loops:
+        lp = ln.ast
+        v = lp.target.id
+        inside = set()
+        for x in ast.walk(lp):
+            inside.add(id(x))
+        # aliases of the option callables inside the loop: `for (obj, cls) in [(opt, T), ...]`
+        alias = set()
+        for x in ast.walk(lp):
+            if isinstance(x, ast.For) and x is not lp and isinstance(x.iter, (ast.List, ast.Tuple)):
+                for e in x.iter.elts:
+                    if isinstance(e, ast.Tuple) and e.elts and isinstance(e.elts[0], ast.Name) and e.elts[0].id in P:
+                        t = x.target.elts[0] if isinstance(x.target, ast.Tuple) else x.target
+                        if isinstance(t, ast.Name):
+                            alias.add(t.id)
+        for n in cfg.nodes:
+            if n.ast is None or id(n.ast) not in inside or rd[n.id] is None:
+                continue
+            roots = [n.ast] if n.kind in ("stmt", "test") else ([n.ast.iter] if n.kind == "for" and n.first and n.ast is not lp else [])
+            for r in roots:
+                for c in walk_no_nested(r, include_self=True):
+                    if isinstance(c, ast.Call) and isinstance(c.func, ast.Name) and (c.func.id in P or c.func.id in alias) and len(c.args) == 1:
+                        n_checked += 1
+                        a = src(c.args[0])
+                        ctx.check("R27.4", f"{okl.key}::loop over {v}: {src(c)}", a == v,
+                                  f"option `{c.func.id}` is evaluated at `{a}` inside the loop over `{v}`", okl, c)
+                for u in cfg.node_uses(n) if n.kind in ("stmt", "test") else []:
+                    for d in rd[n.id].get(u.id, ()):
+                        dn = cfg.nodes[d]
+                        if dn.kind == "stmt" and isinstance(dn.ast, ast.Assign) and id(dn.ast) not in inside \
+                                and isinstance(dn.ast.value, ast.Call) and isinstance(dn.ast.value.func, ast.Name) \
+                                and dn.ast.value.func.id in P and len(dn.ast.targets) == 1 and isinstance(dn.ast.targets[0], ast.Name):
+                            n_checked += 1
+                            ctx.bad("R27.4", f"{okl.key}::loop over {v}: uses `{u.id}` = {src(dn.ast.value)}",
+                                    f"`{u.id}` was obtained from the per-iteration option `{dn.ast.value.func.id}` at a fixed index outside "
+                                    f"the loop and is used for every iteration: configurations whose option changes with the iteration "
+                                    "are judged by the wrong value", okl, u)
+    ctx.extra["R27.4_sites"] = n_checked
+
+
+def r27_5(ctx, m, mod, okl):
+    """output sub-directories are created under the same flag that enables their writer"""
+    ctx.rule("R27.5", "every output sub-directory a plotting helper writes to is created under the same option that enables that helper", floor=2)
+    # usage: helper -> directory literal it joins under _output_directory
+    helper_dir = {}
+    for fi in mod.all_functions:
+        if fi.parent is not None or not fi.name.startswith("_plot"):
+            continue
+        for c in walk_no_nested(fi.node):
+            if isinstance(c, ast.Call) and call_name(c) == "join" and c.args and src(c.args[0]) == "_output_directory" and len(c.args) >= 2 \
+                    and isinstance(c.args[1], ast.Constant):
+                helper_dir[fi.name] = c.args[1].value
+    # flag guarding each helper call (in any function of the module); flags are parameter names starting with plot_
+    usage = {}
+    for fi in mod.all_functions:
+        if fi.parent is not None:
+            continue
+        cfg = cfg_of(fi)
+        for n, c in find_nodes(cfg, lambda q: isinstance(q, ast.Call) and isinstance(q.func, ast.Name) and q.func.id in helper_dir):
+            flags = [src(t) for t, pol in known_atoms(cfg, n.id) if pol and isinstance(t, ast.Name) and t.id.startswith("plot_")]
+            if flags:
+                usage[helper_dir[c.func.id]] = flags[-1]
+    # creation: `if FLAG: subfolders += [LIT]`  or  `for flag, sub in [(FLAG, LIT), ...]: if flag: subfolders += [sub]`
+    creation = {}
+    shape_ok = True
+    for st in walk_no_nested(okl.node):
+        if isinstance(st, ast.If) and isinstance(st.test, ast.Name):
+            for s2 in st.body:
+                if isinstance(s2, ast.AugAssign) and src(s2.target) == "subfolders" and isinstance(s2.value, ast.List):
+                    for e in s2.value.elts:
+                        if isinstance(e, ast.Constant):
+                            creation[e.value] = st.test.id
+                        elif isinstance(e, ast.Name):
+                            shape_ok = shape_ok and False
+        if isinstance(st, ast.For) and isinstance(st.iter, (ast.List, ast.Tuple)) and isinstance(st.target, ast.Tuple) and len(st.target.elts) == 2 \
+                and any("subfolders" in src(x) for x in ast.walk(st)):
+            fl, sub = [src(e) for e in st.target.elts]
+            body_ok = any(isinstance(b, ast.If) and src(b.test) == fl and any(isinstance(s2, ast.AugAssign) and src(s2.target) == "subfolders"
+                                                                               and src(s2.value) == f"[{sub}]" for s2 in b.body) for b in st.body)
+            if body_ok:
+                shape_ok = True
+                for e in st.iter.elts:
+                    if isinstance(e, ast.Tuple) and len(e.elts) == 2 and isinstance(e.elts[0], ast.Name) and isinstance(e.elts[1], ast.Constant):
+                        creation[e.elts[1].value] = e.elts[0].id
+    for d, flag in sorted(usage.items()):
+        key = f"{okl.key}::sub-directory '{d}' is created under `{flag}`"
+        if d not in creation:
+            ctx.check("R27.5", key, None if not shape_ok else False, f"no conditional creation of '{d}' found (created: {creation})", okl)
+        else:
+            ctx.check("R27.5", key, creation[d] == flag,
+                      f"'{d}' is written when `{flag}` is set but created when `{creation[d]}` is set: with only `{flag}` enabled the run "
+                      "fails with FileNotFoundError after the first iteration", okl)
+
+
+def r27_6(ctx, m, okl):
+    ctx.rule("R27.6", "every completed iteration is inspected: the inspect callback dominates the terminate-callback exit and the "
+                      "end of the iteration", floor=2)
+    cfg = cfg_of(okl)
+    ins = [n for n, c in find_nodes(cfg, lambda q: isinstance(q, ast.Call) and call_name(q) == "_handle_inspect_callback")]
+    term = [n for n, c in find_nodes(cfg, lambda q: isinstance(q, ast.Call) and call_name(q) == "_handle_terminate_callback")]
+    if len(ins) != 1 or len(term) != 1:
+        ctx.und("R27.6", f"{okl.key}::callback sites", f"{len(ins)} inspect / {len(term)} terminate", okl)
+        return
+    dom = cfg.dominators()
+    ctx.check("R27.6", f"{okl.key}::inspect callback runs before the terminate callback can end the run", ins[0].id in dom[term[0].id],
+              "the terminate callback can stop the run before the inspect callback has seen the final iteration", okl, term[0].ast)
+    pops = [n for n, c in find_nodes(cfg, lambda q: isinstance(q, ast.Call) and call_name(q) == "pop_sseq")]
+    last = [p for p in pops if not any(isinstance(cfg.nodes[b].ast, (ast.Continue, ast.Break)) for b, l in cfg.succ[p.id])]
+    ctx.check("R27.6", f"{okl.key}::a regular iteration ends only after the inspect callback",
+              bool(last) and all(ins[0].id in dom[p.id] for p in last), None, okl)
